@@ -125,12 +125,15 @@ def pinv_reference(h):
     else:
         cond = smax / float(s[rank - 1])
         noise = float(s[rank]) / smax if rank < k else 0.0
-    # a float64 pseudo-inverse cannot be expected to be closer than ~cond*eps;
-    # beyond 1e9 the comparison says nothing about the formula
-    # and the rank must be unambiguous: every relative cut-off between 2 eps and 1e-9 gives the same answer
-    judged = bool(cond <= 1e9 and noise <= 2.0 * EPS)
+    # a float64 pseudo-inverse cannot be expected to be closer than ~cond*eps: the tolerance follows the accuracy
+    # the computation can really deliver, and the comparison is dropped only when that tolerance exceeds 1e-4
+    # (cond > ~2e9), where it would say nothing about the formula. The ABSOLUTE size of the curvature plays no
+    # role: a regular Hessian of scale 1e-9 or with an eigenvalue 1e-8 next to O(1) ones has an exact inverse.
+    # The rank must be unambiguous: every relative cut-off between 2 eps and 1/cond (>= 4e-10) gives the same answer.
     rtol = max(1e-9, 200.0 * EPS * cond)
-    return {'ref': ref, 'rank': rank, 'cond': cond, 'noise': noise, 'judged': judged, 'rtol': rtol}
+    judged = bool(rtol <= 1e-4 and noise <= 2.0 * EPS)
+    smin = float(s[rank - 1]) if rank > 0 and smax > 0 else 0.0
+    return {'ref': ref, 'rank': rank, 'cond': cond, 'noise': noise, 'judged': judged, 'rtol': rtol, 'smax': smax, 'smin': smin}
 
 
 def sandwich_reference(v, b):
